@@ -636,6 +636,12 @@ def handleNp (j : Json) : D Json := do
         pure (match Np.maEmpty ((← field j "shapes" >>= asList asNat)[0]?) with
           | .ok fl => flagsToJson (Np.fillWith fl .missing)
           | .error e => Json.str e.name)
+    | "and_mb" => do pure (bcellsToJson (Np.andB (← field j "c1" >>= asList asBCellNp) (← field j "c2" >>= asList asBCellNp)))
+    | "and_pb" => do
+        pure (bcellsToJson (Np.andB (Np.plainB ((← field j "c1" >>= asList asBCellNp).map (·.d))) (← field j "c2" >>= asList asBCellNp)))
+    | "not_b" => do pure (bcellsToJson (Np.notB (← field j "c1" >>= asList asBCellNp)))
+    | "none_unmasked" => do pure (toJson (Np.noneUnmasked (← a)))
+    | "z_idx_nodepth" => do pure (bcellsToJson (Np.zipMask (Np.notP (Np.isnanData (← a))) (Np.maskOf (← a))))
     | "great_circle" => do
         pure (cellsToJson (Np.greatCircle (← field j "hops" >>= asList asV) (← field j "n" >>= asNat)))
     | s => throw s!"unknown np op {s}")
